@@ -6,6 +6,7 @@ import (
 	"encoding/hex"
 	"encoding/json"
 	"fmt"
+	"net/url"
 	"os"
 	"path/filepath"
 	"sort"
@@ -159,9 +160,21 @@ func (c *CasesFile) WriteTo(r *Report) {
 	}
 }
 
+// virtualFiles are the documents external references may name (no file system, no network).
+var virtualFiles = map[string][]byte{
+	"other.yaml": []byte(`{"openapi":"3.0.3","info":{"title":"o","version":"1"},"paths":{},"components":{"schemas":{"Ext":{"type":"object","properties":{"e":{"type":"string"}}}}}}`),
+	"third.yaml": []byte(`{"openapi":"3.0.3","info":{"title":"t","version":"1"},"paths":{},"components":{"schemas":{"T":{"type":"string"}}}}`),
+}
+
 func loadSpec(data []byte) (*openapi3.T, error) {
 	loader := openapi3.NewLoader()
 	loader.IsExternalRefsAllowed = true
+	loader.ReadFromURIFunc = func(_ *openapi3.Loader, u *url.URL) ([]byte, error) {
+		if b, ok := virtualFiles[strings.TrimPrefix(u.Path, "/")]; ok {
+			return b, nil
+		}
+		return nil, fmt.Errorf("no such document: %s", u.String())
+	}
 	return loader.LoadFromData(data)
 }
 
